@@ -305,6 +305,11 @@ Proof. exact cartesian_domain_example. Qed.
 From Romea Require Import SrcTie SrcTieC01.
 From Romea.gen Require Import SrcFunsC01.
 
+Theorem C01_source_tie_ellipsoid : forall (T : Type) (N : NumOps T) (A B : T),
+  src_makeEllipsoid N A B = (let el := make_ellipsoid N A B in (el_a el, el_b el, el_e2 el, el_e el)).
+Proof. exact tie_makeEllipsoid. Qed.
+Print Assumptions C01_source_tie_ellipsoid.
+
 Theorem C01_source_tie_toECEF : forall (el : ellipsoid (T:=R)) (g : geodetic (T:=R)),
   src_toECEF ROps (el_a el) (el_e2 el) (g_alt g) (g_lat g) (g_lon g)
   = (vx (toECEF ROps el g), vy (toECEF ROps el g), vz (toECEF ROps el g)).
